@@ -29,5 +29,5 @@ LEVEL_TEXT = ("Bounded symbolic checking: for every discrete configuration liste
               "bounds/values as solver variables and every assertion is discharged by z3 for all reals (and, for the membership/construct kernels, all non-NaN IEEE doubles). "
               "Inductive single steps from an arbitrary valid state cover histories of any length for the mutators; chained histories are bounded to 3 calls.")
 LEVEL_NOTE = ("Trusted: clang-14 IR as semantics, the SymFP pass + runtime (validated by running the repo's own tests through the instrumented library), z3 5.1.0. "
-              "REAL mode excludes IEEE rounding; parser part of the statement is checked under C16/C17 kernels only.")
+              "REAL mode excludes IEEE rounding; the bracket-syntax parser is checked on a finite token grammar (job description-parser); number syntax itself under C17.")
 TECHNIQUE = "symbolic execution of LLVM-IR-instrumented real code, path conditions and assertions decided by z3 (QF_NRA / QF_FP)"
